@@ -907,7 +907,8 @@ def adapt_typehints(
                 if isinstance(prev_val, list) and len(prev_val) == len(val):
                     adapt_kwargs_n = {**deepcopy(adapt_kwargs), "prev_val": prev_val[n]}
                 else:
-                    adapt_kwargs_n = deepcopy(adapt_kwargs)
+                    # no item of the previous list corresponds to this one: it has no previous value
+                    adapt_kwargs_n = {**deepcopy(adapt_kwargs), "prev_val": None}
                 with change_to_path_dir(list_path):
                     val[n] = adapt_typehints(v, subtypehints[0], list_item=True, **adapt_kwargs_n)
 
@@ -944,7 +945,7 @@ def adapt_typehints(
                     }
                 else:
                     kwargs = adapt_kwargs.copy()
-                if kwargs.get("prev_val"):
+                if kwargs.get("prev_val") is not None:
                     if isinstance(kwargs["prev_val"], dict):
                         kwargs["prev_val"] = kwargs["prev_val"].get(k)
                     else:
